@@ -1,7 +1,7 @@
 (* C01 -- locomotive and consist energy ledger closes.  Pinned statements only. *)
 From Coq Require Import Reals List Bool.
-From AltModel Require Import Num Interp Powertrain Loco Consist.
-From AltProofs Require Import NumR PowertrainP LocoP C08P ConsistP C10P C01P ExampleP.
+From AltModel Require Import Num Interp Powertrain Loco Consist Resist Braking TrainStep TrainFull.
+From AltProofs Require Import NumR PowertrainP LocoP C08P ConsistP C10P C01P ExampleP WholeSimP.
 Import ListNotations.
 Open Scope R_scope.
 
@@ -45,3 +45,24 @@ Proof. exact consist_run_rollup. Qed.
 (* non-vacuity: a concrete locomotive that is well-formed and starts with a closed ledger *)
 Example C01_hypotheses_satisfiable : ledger_state loco0.
 Proof. exact loco0_ledger. Qed.
+
+(* ---- inside the WHOLE train simulation (TrainFull.v) every unit's ledger closes in every step:
+   [unit_laws] contains power_ledger l', (energy_ledger l -> energy_ledger l'), soc_rel l l' and
+   delivered power = the unit's share ---- *)
+Theorem C01_whole_set_speed_step : forall (e : Env (F:=R)) times speeds fmax st cache (c c' : ConsistR) st'' cache',
+  ss_full_step e times speeds fmax ((st, cache), c) = Ok ((st'', cache'), c') ->
+  (forall i t_i t_p, nth_error times (S i) = Some t_i -> nth_error times i = Some t_p -> t_p < t_i) ->
+  Forall loco_ok (cn_locos c) ->
+  exists shares, Forall3 unit_laws (cn_locos c) shares (cn_locos c') /\
+    Forall loco_ok (cn_locos c') /\ Forall2 cum_le (cn_locos c) (cn_locos c') /\
+    cs_pwr_out (cn_state c') = ConsistP.sumR (fun x => x) shares.
+Proof. exact ss_full_step_units. Qed.
+
+Theorem C01_whole_speed_limit_step : forall (e : Env (F:=R)) pts fmax (s s'' : SLState (F:=R)) (c c' : ConsistR),
+  sl_full_step e pts fmax (s, c) = Ok (s'', c') -> 0 < k_dt (ts_k (sl_st s)) ->
+  Forall loco_ok (cn_locos c) ->
+  exists shares, Forall3 unit_laws (cn_locos c) shares (cn_locos c') /\
+    Forall loco_ok (cn_locos c') /\ Forall2 cum_le (cn_locos c) (cn_locos c') /\
+    cs_pwr_out (cn_state c') = ConsistP.sumR (fun x => x) shares /\
+    k_dt (ts_k (sl_st s'')) = k_dt (ts_k (sl_st s)).
+Proof. exact sl_full_step_units. Qed.
